@@ -191,18 +191,7 @@ def check_C03(tier, seed):
             out.violation(compile_signature(msg), "accepted grammar yields Rust code (or documented-type assertions) rustc rejects: %s" % msg[:300],
                           {"profile": profile, "opts": opts, "grammar_text": c.get("grammar_text"), "rustc": msg[:1500], "uid": c.get("uid")})
         out.inconc("generator_error", s["n_generator_errors"])
-        if "rejected" in conf["kinds"] and not (opts.get("derive_variants") or opts.get("inline_variants")):
-            # a generated grammar is inside the documented syntax and restrictions: the compiler has to produce a parser
-            for c in s["pgen_fail"]:
-                cls = c.get("class") or []
-                if cls[:1] == ["gen_err"] or cls[:1] == ["parse_err"]:
-                    gt = c.get("grammar_text", "")
-                    out.violation("rejected:%s:%s" % (profile, hashlib.sha256(gt.encode()).hexdigest()[:10]),
-                                  "a well-formed grammar is rejected by the compiler (%s): no parser to recognise its language" % " ".join(
-                                      build_unhex_safe(x) for x in cls[:4]),
-                                  {"profile": profile, "opts": opts, "grammar_text": gt, "result": cls, "kind": "rejected"})
-        else:
-            out.inconc("grammar_rejected_by_compiler", s["n_pgen_fail"])
+        out.inconc("grammar_rejected_by_compiler", s["n_pgen_fail"])
         meta.append({"profile": profile, "units": s["units"], "compiled": s["units_run"] + sum(1 for u in um if u["compiled"] and not u["runnable"]),
                      "rejected_by_compiler": s["n_pgen_fail"], "compile_failures": s["n_compile_fail"], "cached": bool(s.get("cached")),
                      "variants": sorted({u["variant"] for u in um})})
